@@ -59,6 +59,316 @@ def translate_std_bounds() -> str:
     return "\n".join(out) + "\n"
 
 
+# ------------------------------------------------------------------ histories of one object graph (kind "seq")
+# case ::= {"kind": "seq", "ty": ty, "copy": None | "copy" | "deepcopy", "static": bool, "steps": [step..]}
+# step ::= {"op": "set", "path": [slot..] (non-empty), "mode": "slot" | "attr", "new": ty}
+#        | {"op": "append", "path": [slot..], "row": r, "new": ty}
+#        | {"op": "def", "path": [slot..], "bound": ["E", b] | ["P", [i..]]}       (node is a generic "ext")
+#        | {"op": "obound", "path": [slot..], "b": b}                              (node is an "opaque")
+# A path is a list of indices into _slots(node), from the root.  Only objects that build_ty makes afresh are
+# changed (never the shared atoms tys.Bool / tys.Qubit / FLOAT_T ..., never a TypeDef, which build_def shares).
+_MUT = ("sum", "tuple", "option", "either", "func", "opaque", "ext", "array", "list", "sarray")
+
+
+def _slots(t):
+    """Type-valued child positions of a description: (index path inside the description, accessor on the object)."""
+    k = t[0]
+    if k == "sum":
+        return [((1, i, j), ("rows", i, j)) for i, r in enumerate(t[1]) for j in range(len(r))]
+    if k == "tuple":
+        return [((1, j), ("rows", 0, j)) for j in range(len(t[1]))]
+    if k == "option":
+        return [((1, j), ("rows", 1, j)) for j in range(len(t[1]))]
+    if k == "either":
+        return [((1 + i, j), ("rows", i, j)) for i in (0, 1) for j in range(len(t[1 + i]))]
+    if k == "func":
+        return ([((1, j), ("in", j)) for j in range(len(t[1]))] + [((2, j), ("out", j)) for j in range(len(t[2]))])
+    if k == "ext":
+        return [((2, i, 1), ("args", i)) for i, a in enumerate(t[2]) if a[0] == "t"]
+    if k == "opaque":
+        return [((3, i, 1), ("args", i)) for i, a in enumerate(t[3]) if a[0] == "t"]
+    if k == "array":
+        return [((1,), ("args", 1))]
+    if k in ("list", "sarray"):
+        return [((1,), ("args", 0))]
+    return []
+
+
+def _rows(t):
+    """Rows of a description one can append to: (index path of the row in the description, accessor)."""
+    k = t[0]
+    if k == "sum":
+        return [((1, i), ("rows", i)) for i in range(len(t[1]))]
+    if k == "tuple":
+        return [((1,), ("rows", 0))]
+    if k == "option":
+        return [((1,), ("rows", 1))]
+    if k == "either":
+        return [((1,), ("rows", 0)), ((2,), ("rows", 1))]
+    if k == "func":
+        return [((1,), ("in",)), ((2,), ("out",))]
+    return []
+
+
+def _dget(t, pos):
+    for p in pos:
+        t = t[p]
+    return t
+
+
+def _dset(t, pos, v):
+    if not pos:
+        return v
+    c = list(t)
+    c[pos[0]] = _dset(t[pos[0]], pos[1:], v)
+    return c
+
+
+def _oget(o, acc):
+    if acc[0] == "rows":
+        return o.variant_rows[acc[1]][acc[2]]
+    if acc[0] == "in":
+        return o.input[acc[1]]
+    if acc[0] == "out":
+        return o.output[acc[1]]
+    return o.args[acc[1]].ty
+
+
+def _oset(o, acc, new, mode):
+    from hugr import tys
+    if acc[0] == "rows":
+        if mode == "attr":
+            rows = [list(r) for r in o.variant_rows]
+            rows[acc[1]][acc[2]] = new
+            o.variant_rows = rows
+        else:
+            o.variant_rows[acc[1]][acc[2]] = new
+    elif acc[0] == "in":
+        o.input[acc[1]] = new                    # FunctionType is frozen, its rows are plain lists
+    elif acc[0] == "out":
+        o.output[acc[1]] = new
+    elif mode == "attr":
+        a = list(o.args)
+        a[acc[1]] = tys.TypeTypeArg(new)
+        o.args = a
+    else:
+        o.args[acc[1]] = tys.TypeTypeArg(new)
+
+
+def _inner(st):
+    return st["path"][:-1] if st["op"] == "set" else st["path"]
+
+
+def step_desc(t, st):
+    """The description after the step (IndexError / ValueError / KeyError when the step does not fit)."""
+    pos, node = (), t
+    for s in _inner(st):
+        p, _ = _slots(node)[s]
+        pos, node = pos + p, _dget(node, p)
+    if node[0] not in _MUT:
+        raise ValueError("not a freshly built node")
+    op = st["op"]
+    if op == "set":
+        p, _ = _slots(node)[st["path"][-1]]
+        return _dset(t, pos + p, st["new"])
+    if op == "append":
+        p, _ = _rows(node)[st["row"]]
+        return _dset(t, pos + p, list(_dget(node, p)) + [st["new"]])
+    if op == "def":
+        if node[0] != "ext":
+            raise ValueError("def on a non-ext node")
+        return _dset(t, pos + (1,), {**node[1], "bound": st["bound"]})
+    if op == "obound":
+        if node[0] != "opaque":
+            raise ValueError("obound on a non-opaque node")
+        return _dset(t, pos + (4,), st["b"])
+    raise ValueError(op)
+
+
+def step_obj(t, o, st):
+    """Apply the step to the object graph `o` built from description `t`, through public attributes only."""
+    node, on = t, o
+    for s in _inner(st):
+        p, acc = _slots(node)[s]
+        node, on = _dget(node, p), _oget(on, acc)
+    op = st["op"]
+    if op == "set":
+        _, acc = _slots(node)[st["path"][-1]]
+        _oset(on, acc, build_ty(st["new"]), st["mode"])
+    elif op == "append":
+        _, acc = _rows(node)[st["row"]]
+        lst = on.variant_rows[acc[1]] if acc[0] == "rows" else (on.input if acc[0] == "in" else on.output)
+        lst.append(build_ty(st["new"]))
+    elif op == "def":
+        on.type_def = tv.build_def({**node[1], "bound": st["bound"]})
+    elif op == "obound":
+        on.bound = tv._bound(st["b"])
+    else:
+        raise ValueError(op)
+
+
+def _nodes(t, path=(), under=False):
+    """(path, node, inside a static array?) of every node reachable through _slots."""
+    yield list(path), t, under
+    for s, (p, _) in enumerate(_slots(t)):
+        yield from _nodes(_dget(t, p), path + (s,), under or t[0] == "sarray")
+
+
+def _sarray_ok(t):
+    """No static array holds a linear element: in-place changes bypass StaticArray.__init__, which is the only
+    place the property's 'containers that require copyable elements reject linear ones' is enforced, so the
+    generator / shrinker never produce such a state (it would not be a violation of the property)."""
+    try:
+        return all(tv.desc_copyable(n[1]) for _, n, _ in _nodes(t) if n[0] == "sarray")
+    except (IndexError, KeyError):
+        return False
+
+
+def seq_valid(case):
+    try:
+        t = case["ty"]
+        if t[0] not in _MUT or not case["steps"] or not _sarray_ok(t):
+            return False
+        build_ty(t)
+        for st in case["steps"]:
+            t = step_desc(t, st)
+            if not _sarray_ok(t):
+                return False
+        return True
+    except Exception:
+        return False
+
+
+def run_seq(case, visit):
+    """Build the root, visit; per step: change the object graph, visit every tracked object again.
+    visit(obj, static) -> list of records; returns the concatenation."""
+    import copy
+    t = case["ty"]
+    root = build_ty(t)
+    static = bool(case.get("static"))
+    out = list(visit(root, static))
+    cur, tracked = root, [root]
+    if case.get("copy"):
+        cur = copy.copy(root) if case["copy"] == "copy" else copy.deepcopy(root)
+        tracked = [cur, root]
+    for st in case["steps"]:
+        step_obj(t, cur, st)
+        t = step_desc(t, st)
+        for o in tracked:
+            out += visit(o, static and o is cur)
+    return out
+
+
+def rand_new(rng, copy_only):
+    if copy_only:
+        return rand_ty(rng, rng.choice([0, 0, 1]), True)
+    r = rng.random()
+    if r < 0.4:
+        return ["qubit"]
+    if r < 0.55:
+        return rng.choice([["usize"], ["bool"]])
+    return rand_ty(rng, rng.choice([0, 1, 2]), False)
+
+
+def rand_step(rng, t):
+    sets, apps, defs, obs = [], [], [], []
+    for path, n, under in _nodes(t):
+        if n[0] not in _MUT:
+            continue
+        co = under or n[0] == "sarray"
+        sets += [(path + [s], co) for s in range(len(_slots(n)))]
+        apps += [(path, r, co) for r in range(len(_rows(n)))]
+        if n[0] == "ext" and not under:
+            defs.append((path, n))
+        if n[0] == "opaque" and not under:
+            obs.append((path, n))
+    r = rng.random()
+    order = (["set", "append", "def", "obound"] if r < 0.62 else ["append", "set", "def", "obound"] if r < 0.72 else
+             ["def", "set", "append", "obound"] if r < 0.9 else ["obound", "set", "def", "append"])
+    for op in order:
+        if op == "set" and sets:
+            path, co = rng.choice(sets)
+            return {"op": "set", "path": path, "mode": rng.choice(["slot", "slot", "attr"]), "new": rand_new(rng, co)}
+        if op == "append" and apps:
+            path, row, co = rng.choice(apps)
+            return {"op": "append", "path": path, "row": row, "new": rand_new(rng, co)}
+        if op == "def" and defs:
+            path, n = rng.choice(defs)
+            na = len(n[2])
+            if na == 0 or rng.random() < 0.35:
+                b = ["E", tv.rand_bound(rng)]
+            else:
+                b = ["P", [rng.randrange(na) for _ in range(rng.choice([0, 1, 1, 2, 3]))]]
+            return {"op": "def", "path": path, "bound": b}
+        if op == "obound" and obs:
+            path, n = rng.choice(obs)
+            return {"op": "obound", "path": path, "b": "A" if n[4] == "C" else "C"}
+    return None
+
+
+def rand_seq(rng):
+    for _ in range(50):
+        d = rng.choice([1, 1, 2, 2, 3])
+        r = rng.random()
+        if r < 0.3:
+            dd, args = tv.rand_def_and_args(rng, d, False)
+            t = ["ext", dd, args]
+        elif r < 0.38:
+            t = ["list", rand_ty(rng, d - 1, False)]
+        elif r < 0.46:
+            t = ["array", rand_ty(rng, d - 1, False), rng.choice([0, 1, 2, 5])]
+        else:
+            t = rand_ty(rng, d, rng.random() < 0.15)
+        if t[0] not in _MUT:
+            continue
+        t0, steps = t, []
+        for _ in range(rng.choice([1, 1, 1, 2, 2, 3])):
+            st = rand_step(rng, t)
+            if st is None:
+                break
+            t2 = step_desc(t, st)
+            if not _sarray_ok(t2):
+                continue
+            steps.append(st)
+            t = t2
+        if steps:
+            return {"kind": "seq", "ty": t0, "copy": rng.choice([None, None, None, "copy", "copy", "deepcopy"]),
+                    "static": rng.random() < 0.3, "steps": steps}
+    raise RuntimeError("no history generated")
+
+
+def shrink_seq(case):
+    steps = case["steps"]
+    if case.get("copy"):
+        yield {**case, "copy": None}
+    if case.get("static"):
+        yield {**case, "static": False}
+    for i in range(len(steps)):
+        if len(steps) > 1:
+            yield {**case, "steps": steps[:i] + steps[i + 1:]}
+    # the subtree all steps work in, as the root
+    first = {_inner(st)[0] if _inner(st) else None for st in steps}
+    if len(first) == 1 and None not in first:
+        s = first.pop()
+        p, _ = _slots(case["ty"])[s]
+        yield {**case, "ty": _dget(case["ty"], p), "steps": [{**st, "path": st["path"][1:]} for st in steps]}
+    for i, st in enumerate(steps):
+        rep = lambda x: {**case, "steps": steps[:i] + [x] + steps[i + 1:]}
+        if st.get("mode") == "attr":
+            yield rep({**st, "mode": "slot"})
+        if "new" in st:
+            for a in (["qubit"], ["usize"]):
+                if st["new"] != a:
+                    yield rep({**st, "new": a})
+            for x in list(tv.shrink_ty(st["new"]))[:40]:
+                yield rep({**st, "new": x})
+        if st["op"] == "def" and st["bound"][0] == "P":
+            for j in range(len(st["bound"][1])):
+                yield rep({**st, "bound": ["P", st["bound"][1][:j] + st["bound"][1][j + 1:]]})
+    for x in list(tv.shrink_ty(case["ty"]))[:200]:
+        yield {**case, "ty": x}
+
+
 B = {"C": "Copyable", "A": "Any"}
 
 
@@ -74,8 +384,10 @@ class C07(fw.Prop):
             "from-parameters bounds and arbitrary in-range index lists (repetitions, non-type arguments at the indices), "
             "std int/float/string, Array/List/StaticArray over generated elements; a malformed stream with index lists "
             "out of range; the StaticArray constructor on copyable and linear elements; TypeBound.join on all bound "
-            "lists up to length 4 and random longer ones.  non-trivial = the type has a constituent (depth >= 1) or the "
-            "case is a constructor/join case with >= 2 inputs")
+            "lists up to length 4 and random longer ones; histories of one object graph (observe, then assign / append an "
+            "element of a row or argument list, re-assign args / variant_rows / type_def / bound, at any depth, on the "
+            "object or on a copy.copy / copy.deepcopy of it, observe again; 1-3 changes).  non-trivial = the type has a constituent (depth >= 1) or the "
+            "case is a constructor/join case with >= 2 inputs or a history")
     trusted = ["indices of a from-parameters bound are naturals (negative Python indices, which would wrap around, are "
                "outside the model and the generator)",
                "serialised bounds are read from `_to_serial().model_dump()` by a pre-order walk over dict entries "
@@ -120,6 +432,32 @@ class C07(fw.Prop):
             {"kind": "static", "elem": ["func", [lin], [lin], []]},
             {"kind": "join", "bs": []},
             {"kind": "join", "bs": ["C", "A", "C"]},
+        ] + self.seq_corpus()
+
+    def seq_corpus(self):
+        """Histories (seeded round 2): the bound reported / written is that of the type's CURRENT value."""
+        lin, bl = ["qubit"], ["bool"]
+        pair = {"ext": "e.one", "name": "Pair", "params": [["type", "A"]] * 2, "bound": ["P", [0, 1]]}
+        box = {"ext": "e.one", "name": "box", "params": [["type", "A"]], "bound": ["P", [0]]}
+        sq = lambda ty, steps, copy=None, static=False: {"kind": "seq", "ty": ty, "copy": copy, "static": static,
+                                                           "steps": steps}
+        st = lambda path, new, mode="slot": {"op": "set", "path": path, "mode": mode, "new": new}
+        return [
+            # serialize, assign one type argument in place, serialize again (C07-d: memoised _to_opaque)
+            sq(["ext", pair, [["t", bl], ["t", bl]]], [st([1], lin)]),
+            sq(["ext", pair, [["t", bl], ["t", lin]]], [st([1], bl, "attr")]),
+            # a copy of a type that was serialized before gets new arguments; the original keeps its bound
+            sq(["list", bl], [st([0], lin, "attr")], copy="copy"),
+            sq(["array", bl, 2], [st([0], lin)], copy="deepcopy"),
+            # the element of an inner sum changes under an extension type that was serialized before
+            sq(["ext", box, [["t", ["tuple", [bl]]]]], [st([0, 0], lin)]),
+            sq(["list", ["option", [bl]]], [{"op": "append", "path": [0], "row": 0, "new": lin}]),
+            # sums themselves; the definition / the declared bound re-assigned
+            sq(["tuple", [bl]], [{"op": "append", "path": [], "row": 0, "new": lin}, st([1], ["usize"])], static=True),
+            sq(["ext", {**box, "bound": ["E", "C"]}, [["t", lin]]], [{"op": "def", "path": [], "bound": ["P", [0]]},
+                                                                      {"op": "def", "path": [], "bound": ["E", "A"]}]),
+            sq(["tuple", [["opaque", "e.two", "Ref", [], "C"]]], [{"op": "obound", "path": [0], "b": "A"}], static=True),
+            sq(["sarray", ["tuple", [bl]]], [st([0, 0], ["usize"])]),
         ]
 
     def generate(self, rng, tier, ctx):
@@ -151,6 +489,9 @@ class C07(fw.Prop):
             elif r < 0.6:
                 t = ["func", [t], [], []]
             cases.append({"kind": "ty", "ty": t})
+        # histories: build, observe, change through public attributes (possibly on a copy), observe again
+        for _ in range(400 * k):
+            cases.append(rand_seq(rng))
         # TypeBound.join: exhaustive up to length 4, then random
         import itertools
         for n in range(5):
@@ -172,33 +513,49 @@ class C07(fw.Prop):
                 return ["exc", type(e).__name__]
         if k == "join":
             return guard(lambda: tys.TypeBound.join(*[tv._bound(b) for b in case["bs"]]).value)
+        from hugr.std.collections.static_array import StaticArray
+
+        def obs_ty(t):
+            ob = guard(lambda: t.type_bound().value)
+            oopq = guard(lambda: t._to_opaque().bound.value) if isinstance(t, tys.ExtType) else None
+            oser = guard(lambda: serial_bounds(t._to_serial().model_dump(mode="json")))
+            return {"bound": ob, "opaque": oopq, "serial": oser}
         if k == "static":
-            from hugr.std.collections.static_array import StaticArray
             elem = build_ty(case["elem"])
             return guard(lambda: StaticArray(elem).type_bound().value)
-        t = build_ty(case["ty"])
-        ob = guard(lambda: t.type_bound().value)
-        oopq = guard(lambda: t._to_opaque().bound.value) if isinstance(t, tys.ExtType) else None
-        oser = guard(lambda: serial_bounds(t._to_serial().model_dump(mode="json")))
-        return {"bound": ob, "opaque": oopq, "serial": oser}
+        if k == "seq":
+            return run_seq(case, lambda o, static: [obs_ty(o)] + (
+                [guard(lambda: StaticArray(o).type_bound().value)] if static else []))
+        return obs_ty(build_ty(case["ty"]))
 
     def literal(self, case, obs, ctx):
         k = case["kind"]
         gob = lambda o: gopt(B[o[1]] if o[0] == "ok" else None)
+        def lit_static(ctor, g, o):
+            acc = "(Some true)" if o[0] == "ok" else ("(Some false)" if o == ["exc", "ValueError"] else "None")
+            return gapp(ctor, g, acc, gob(o))
+
+        def lit_ty(ctor, g, o):
+            oopq = "None" if o["opaque"] is None else gapp("Some", gob(o["opaque"]))
+            oser = gopt(glist(B[b] for b in o["serial"][1]) if o["serial"][0] == "ok" else None)
+            return gapp(ctor, g, gob(o["bound"]), oopq, oser)
         if k == "join":
             return gapp("CJoin", glist(B[b] for b in case["bs"]), gob(obs))
         if k == "static":
-            acc = "(Some true)" if obs[0] == "ok" else ("(Some false)" if obs == ["exc", "ValueError"] else "None")
-            return gapp("CStatic", gty(build_ty(case["elem"])), acc, gob(obs))
-        t = build_ty(case["ty"])
-        oopq = "None" if obs["opaque"] is None else gapp("Some", gob(obs["opaque"]))
-        oser = gopt(glist(B[b] for b in obs["serial"][1]) if obs["serial"][0] == "ok" else None)
-        return gapp("CTy", gty(t), gob(obs["bound"]), oopq, oser)
+            return lit_static("CStatic", gty(build_ty(case["elem"])), obs)
+        if k == "seq":
+            # the same history replayed without observing: the types are printed from the objects at each moment
+            gs = run_seq(case, lambda o, static: [("ty", gty(o))] + ([("static", gty(o))] if static else []))
+            if len(gs) != len(obs):
+                raise AssertionError("history replay and observations disagree in length")
+            return gapp("CSeq", glist(lit_ty("STy", g, o) if tag == "ty" else lit_static("SStatic", g, o)
+                                      for (tag, g), o in zip(gs, obs)))
+        return lit_ty("CTy", gty(build_ty(case["ty"])), obs)
 
     def nontrivial(self, case, obs):
         if case["kind"] == "ty":
             return tv.depth_of(case["ty"]) >= 1
-        if case["kind"] == "static":
+        if case["kind"] in ("static", "seq"):
             return True
         return len(case["bs"]) >= 2
 
@@ -213,6 +570,8 @@ class C07(fw.Prop):
             return f"bound:{top}:{res}"
         if k == "static":
             return "static_array:" + ("accepted" if obs[0] == "ok" else obs[1])
+        if k == "seq":
+            return "history:%s:%s" % (case["ty"][0], "+".join(st["op"] for st in case["steps"]))
         return "join"
 
     def shrink(self, case):
@@ -223,6 +582,10 @@ class C07(fw.Prop):
         elif k == "static":
             for s in tv.shrink_ty(case["elem"]):
                 yield {"kind": "static", "elem": s}
+        elif k == "seq":
+            for c in shrink_seq(case):
+                if seq_valid(c):
+                    yield c
         else:
             bs = case["bs"]
             for i in range(len(bs)):
@@ -230,7 +593,14 @@ class C07(fw.Prop):
 
     def neighbours(self, case, rng):
         out = []
-        if case["kind"] in ("ty", "static"):
+        if case["kind"] == "seq":
+            for i in range(len(case["steps"])):
+                out.append({**case, "steps": case["steps"][:i + 1]})
+                out.append({**case, "copy": None, "static": False, "steps": case["steps"][i:i + 1]})
+            out = [c for c in out if seq_valid(c)]
+            for _ in range(300):
+                out.append(rand_seq(rng))
+        elif case["kind"] in ("ty", "static"):
             t = case.get("ty", case.get("elem"))
             todo = [t]
             while todo and len(out) < 300:
@@ -249,7 +619,8 @@ class C07(fw.Prop):
         return out
 
     def distribution(self, cases, observations):
-        d = {"kinds": {}, "depth": {}, "constructors": {}, "bounds": {}, "raises": 0, "static": {}}
+        d = {"kinds": {}, "depth": {}, "constructors": {}, "bounds": {}, "raises": 0, "static": {},
+             "history_ops": {}, "history_copy": {}, "history_root": {}, "history_bound_changed": 0}
         for c, o in zip(cases, observations):
             k = c["kind"]
             d["kinds"][k] = d["kinds"].get(k, 0) + 1
@@ -265,6 +636,13 @@ class C07(fw.Prop):
             elif k == "static":
                 key = "accepted" if o[0] == "ok" else o[1]
                 d["static"][key] = d["static"].get(key, 0) + 1
+            elif k == "seq":
+                for st in c["steps"]:
+                    d["history_ops"][st["op"]] = d["history_ops"].get(st["op"], 0) + 1
+                d["history_copy"][str(c.get("copy"))] = d["history_copy"].get(str(c.get("copy")), 0) + 1
+                d["history_root"][c["ty"][0]] = d["history_root"].get(c["ty"][0], 0) + 1
+                bs = [x["bound"] for x in o if isinstance(x, dict)]
+                d["history_bound_changed"] += int(any(b != bs[0] for b in bs))
         return d
 
 
